@@ -79,7 +79,10 @@ theorem createTail_cons {s : St} (hc : Consistent s) (pp : Path) (n : Name) (isM
     (hold : match old with
       | none => n ∉ pm.kids
       | some o => s.mem (n :: pp) = some o ∧ o.whiteout = true) :
-    Outcome (createTail pp n isMkdir old meth X s) (fun _ s' => Consistent s') (fun s' => Consistent s') := by
+    Outcome (createTail pp n isMkdir old meth X s)
+      (fun _ s' => Consistent s' ∧
+        (isMkdir = true → old.isSome = true → (s'.disk.nodeAt 0 (n :: pp)).isOpaqueDir = true))
+      (fun s' => Consistent s') := by
   have hl := hc.toLocal
   obtain ⟨pr, hpr, hprl, hprp, hpru, _, _, _⟩ := upper_head hc hpm hpu
   -- the upper layer exists
@@ -147,7 +150,7 @@ theorem createTail_cons {s : St} (hc : Consistent s) (pp : Path) (n : Name) (isM
         (by rw [hloc, hreal]; exact Or.inl rfl)
         (by simp [newNode, headWhiteout])
         (by rw [hloc]; simp) []
-      exact this.congr (by rw [hd2, hdisk1]) (by rw [hm2, hm1])
+      exact ⟨this.congr (by rw [hd2, hdisk1]) (by rw [hm2, hm1]), fun _ h => by cases h⟩
   | some o =>
     obtain ⟨hom, how⟩ := hold
     obtain ⟨pm', hpm', hnk⟩ := hl.reach n pp o hom
@@ -270,7 +273,9 @@ theorem createTail_cons {s : St} (hc : Consistent s) (pp : Path) (n : Name) (isM
           exact Or.inr ⟨_, rfl, rfl, by simp [newNode, hri, staleOf, Node.isOpaqueDir]⟩)
         (by simp [newNode, headWhiteout, hri])
         (by rw [hloc]; simp) []
-      exact this.congr hdisk4 (by rw [hm4, hm3, hmem2])
+      refine ⟨this.congr hdisk4 (by rw [hm4, hm3, hmem2]), fun _ _ => ?_⟩
+      rw [hdisk4, nodeAt_setUpper _ _ _ hu]
+      simp [Node.isOpaqueDir]
     | false =>
       simp only [Bool.false_eq_true, if_false]
       obtain ⟨s3, hadd, hd3, hm3⟩ := addUpperInode_ok' (s := s2) (childReal pr n) true (by rw [hmem2]; exact hom)
@@ -299,7 +304,7 @@ theorem createTail_cons {s : St} (hc : Consistent s) (pp : Path) (n : Name) (isM
           rw [hokids] at this; cases this)
         (by simp [addUpperNode, headWhiteout, hri])
         (by rw [hloc]; simp) []
-      exact this.congr (by rw [hd3, hdisk2]) (by rw [hm3, hmem2])
+      exact ⟨this.congr (by rw [hd3, hdisk2]) (by rw [hm3, hmem2]), fun h => by cases h⟩
 
 /-- `copy_node_up` with everything it guarantees on success -/
 theorem copyNodeUp_spec (p : Path) (s : St) (hc : Consistent s) :
@@ -388,12 +393,15 @@ theorem no_reals_no_kids {s : St} (hc : Consistent s) {p : Path} {m : MNode} (hm
     exfalso; apply this
     simp [localExp, hr, takeDirs, newFromReals]
 
-theorem doCreateLike_cons (pp : Path) (n : Name) (isMkdir : Bool) (meth : Method) (X : Node)
-    (hX : NewEntry isMkdir X) :
-    Triple (fun s => Consistent s ∧ ∃ pm, s.mem pp = some pm ∧ pm.loaded = true)
-      (doCreateLike pp n isMkdir (mkChildOf meth n X)) (fun _ => Consistent) Consistent := by
-  apply Triple.ofOutcome
-  intro s ⟨hc, pm, hpm, hlo⟩
+/-- `do_mkdir` / `do_mknod` / `do_create` / `do_symlink`: the cache stays valid, and a directory made
+    where the forest had a (whiteout) node is opaque in the upper layer afterwards -/
+theorem doCreateLike_spec (pp : Path) (n : Name) (isMkdir : Bool) (meth : Method) (X : Node)
+    (hX : NewEntry isMkdir X) (s : St) (hc : Consistent s) {pm : MNode} (hpm : s.mem pp = some pm)
+    (hlo : pm.loaded = true) :
+    Outcome (doCreateLike pp n isMkdir (mkChildOf meth n X) s)
+      (fun _ s' => Consistent s' ∧
+        (isMkdir = true → (∃ o, s.mem (n :: pp) = some o) → (s'.disk.nodeAt 0 (n :: pp)).isOpaqueDir = true))
+      (fun s' => Consistent s') := by
   have hl := hc.toLocal
   unfold doCreateLike
   rw [bind_ok (hasUpper_eval s)]
@@ -463,11 +471,35 @@ theorem doCreateLike_cons (pp : Path) (n : Name) (isMkdir : Bool) (meth : Method
           rw [hpm2] at hpm2'; cases hpm2'
           have hq2 : s2.mem (n :: pp) = s.mem (n :: pp) := hcp.frame _ (by simp [isSuffixOf_cons_self])
           show Outcome (createTail pp n isMkdir old meth X s2) _ _
-          refine createTail_cons hcp.cons pp n isMkdir old meth X hX hpm2 hpu2 (by rw [hlo2]; exact hlo) ?_
-          cases old with
-          | none => simpa [hk2] using holdp
-          | some o => exact ⟨by rw [hq2]; exact holdp, howh o rfl⟩
+          have hct := createTail_cons hcp.cons pp n isMkdir old meth X hX hpm2 hpu2 (by rw [hlo2]; exact hlo)
+            (by
+              cases old with
+              | none => simpa [hk2] using holdp
+              | some o => exact ⟨by rw [hq2]; exact holdp, howh o rfl⟩)
+          cases hres2 : createTail pp n isMkdir old meth X s2 with
+          | err e s3 => rw [hres2] at hct; exact hct
+          | ok u2 s3 =>
+            rw [hres2] at hct
+            refine ⟨hct.1, fun hmk ⟨o, ho⟩ => hct.2 hmk ?_⟩
+            cases old with
+            | some o' => rfl
+            | none =>
+              -- a node exists, so the parent lists the name
+              obtain ⟨pm', hpm', hn'⟩ := hl.reach n pp o ho
+              rw [hpm] at hpm'; cases hpm'
+              exact absurd hn' holdp
       · rw [bind_err hck]; exact hc
+
+theorem doCreateLike_cons (pp : Path) (n : Name) (isMkdir : Bool) (meth : Method) (X : Node)
+    (hX : NewEntry isMkdir X) :
+    Triple (fun s => Consistent s ∧ ∃ pm, s.mem pp = some pm ∧ pm.loaded = true)
+      (doCreateLike pp n isMkdir (mkChildOf meth n X)) (fun _ => Consistent) Consistent := by
+  apply Triple.ofOutcome
+  intro s ⟨hc, pm, hpm, hlo⟩
+  have := doCreateLike_spec pp n isMkdir meth X hX s hc hpm hlo
+  cases hres : doCreateLike pp n isMkdir (mkChildOf meth n X) s with
+  | ok u s' => rw [hres] at this; exact this.1
+  | err e s' => rw [hres] at this; exact this
 
 /-! ### whole operations: create, mkdir, mknod, symlink -/
 
